@@ -8,7 +8,7 @@ The group-by key lists are NOT part of the hand-written model: `Frame.groupCols`
 `slices_preserved_*` theorems are re-proved against what `data_frame_input.py` says now. Before fix
 D9 `slices_preserved_keys` was false (country, currency, reinsurance_basis, loss_definition missing).
 -/
-import Bermuda.Lemmas.Frame
+import Bermuda.Lemmas.FrameLong
 namespace Bermuda.Properties.C14
 open Bermuda Bermuda.Frame Bermuda.Spec.C14
 
@@ -118,6 +118,18 @@ theorem rows_count_long {t : List Cell} {tb : Table} (h : toLongRows t = .ok tb)
         obtain ⟨fds, hf, hl⟩ := cellLongRows_length hab
         simp [hf, hl]
 
+/-- **fromWide_toWide** (cumulative triangles, `WFwide`: non-empty, strictly sorted, `Cell` /
+`CumulativeCell`, table-safe metadata and column names, every cell all-scalar or all-sample with
+every field when sampled; `D` / `L` the detail / loss-detail columns handed to the reader).
+Writing the triangle to the wide table and reading it back — grouping the rows by the key list
+REGENERATED from `data_frame_input.py` — gives the triangle itself: same cells in the same order,
+coordinates, slice metadata (all eight attributes), field sets, numbers as floats (a one-sample array
+as its scalar), sample order; every slice stays separate. -/
+theorem fromWide_toWide {t : List Cell} {D L : List String} (h : WFwide t D L) :
+    okAnd (fun out => wideSpec t out && slicesSpec false t out)
+      ((toWideRows t).bind fun tb => fromWideRows tb (allFields t) D L) = true :=
+  Frame.fromWide_toWide h
+
 /-! ### non-vacuity and a concrete round trip (kernel evaluation of the model) -/
 
 def exCell (ev : Date) (v : Val) (country : String) : Cell :=
@@ -136,9 +148,6 @@ def backWide (t : List Cell) : Except Err (List Cell) :=
 def backLong (t : List Cell) : Except Err (List Cell) :=
   (toLongRows t).bind fun tb => fromLongRows tb []
 
-def okAnd {α} (p : α → Bool) : Except Err α → Bool
-  | .ok a => p a | .error _ => false
-
 theorem ex_rows : wideRowCount ex = some 6 ∧ longRowCount ex = some 6 := by decide +kernel
 
 /-- a one-cell triangle (the kernel cannot evaluate `List.mergeSort` on two or more elements, so
@@ -153,21 +162,72 @@ theorem ex0_fromLong_toLong :
     okAnd (fun out => longSpec ex0 out && slicesSpec true ex0 out) (backLong ex0) = true := by
   decide +kernel
 
+/-- **fromLong_toLong** (cumulative triangles, `WFlong`: as `WFwide`, with disjoint detail /
+loss-detail key universes `DK` / `LK`, every cell with at least one field, and no two cells that
+coincide once the loss details are folded into the details). Writing the triangle to the long table
+and reading it back as `from_long_csv` does — no `loss_detail_cols`; rows grouped by the key list
+REGENERATED from `data_frame_input.py` (coordinates, `field`, all six metadata columns, detail
+columns) — gives the triangle with loss details folded into details: same cells, coordinates, field
+sets, numbers as floats, sample order through the scenario column; every slice stays separate. -/
+theorem fromLong_toLong {t : List Cell} {DK LK : List String} (h : WFlong t DK LK) :
+    okAnd (fun out => longSpec t out && slicesSpec true t out)
+      ((toLongRows t).bind fun tb => fromLongRows tb []) = true :=
+  Frame.fromLong_toLong h
+
+/-- `WFwide` is satisfiable: two slices that differ only in `country`, sampled cells -/
+theorem wfwide_example : WFwide ex ["coverage"] [] where
+  ne := by decide
+  sorted := by
+    unfold ex
+    simp only [List.pairwise_cons, List.mem_cons, List.not_mem_nil, or_false, forall_eq_or_imp, forall_eq,
+      List.Pairwise.nil, and_true, false_implies, implies_true]
+    decide +kernel
+  cum := by decide +kernel
+  dates := by decide +kernel
+  md := by
+    intro c hc
+    have hcanon : ∀ c ∈ ex, c.md.Canon := by decide +kernel
+    have hmd : ∀ c ∈ ex, c.md.details = [("coverage", .str "BI")] ∧ c.md.lossDetails = [] ∧
+        c.md.riskBasis.isSome = true := by decide +kernel
+    obtain ⟨h1, h2, h3⟩ := hmd c hc
+    exact ⟨hcanon c hc, h3, by rw [h1]; decide, by rw [h2]; decide, by rw [h1]; decide, by rw [h2]; decide⟩
+  names := by
+    have hF : allFields ex = ["paid_loss"] := by decide +kernel
+    rw [hF]
+    exact ⟨by unfold strictKeys; decide, by unfold strictKeys; decide, by decide, by decide, by decide⟩
+  cells := by
+    have hF : allFields ex = ["paid_loss"] := by decide +kernel
+    rw [hF]
+    intro c hc
+    have hv : ∀ c ∈ ex, sampleCount c = 2 ∧ Dict.keys c.values = ["paid_loss"] ∧
+        (c.values.all fun kv => (valData kv.2).map List.length == some 2) = true := by decide +kernel
+    obtain ⟨h1, h2, h3⟩ := hv c hc
+    rw [h1]
+    refine ⟨by decide, ?_, ?_, by rw [h2]; decide⟩
+    · intro kv hkv
+      have := List.all_eq_true.mp h3 kv hkv
+      simp only [beq_iff_eq] at this
+      cases hd : valData kv.2 with
+      | none => simp [hd] at this
+      | some data => exact ⟨data, rfl, by simpa [hd] using this⟩
+    · intro _
+      exact ⟨by decide, by rw [h2]; intro f hf; exact hf⟩
+
 /-! ### statements not proved yet (the correspondence checks them on every run) -/
 
--- OPEN fromWide_toWide
---   theorem fromWide_toWide {t : List Cell} (h : WFcsv t) :
---     okAnd (wideSpec t) ((toWideRows t).bind fun tb =>
---        fromWideRows tb (allFields t) (detailCols t ++ lossDetailCols t) (lossDetailCols t)) = true
---   WFcsv t: t canonical (C01) and non-empty; risk_basis ≠ none; no '' strings; detail / loss-detail keys
---   disjoint from each other and from attribute / coordinate / field names and "scenario"; cumulative cells
---   all-scalar or all-sample with one sample count and every field present when sampled; incremental cells
---   scalar; no `none` values; distinct coordinates inside a slice.
+-- OPEN fromWide_toWide_incremental
+--   theorem fromWide_toWide_incremental {t : List Cell} {D L : List String} (h : WFwideIncr t D L) :
+--     okAnd (fun out => wideSpec t out && slicesSpec false t out)
+--       ((toWideRows t).bind fun tb => fromWideRows tb (allFields t) D L) = true
+--   (incremental triangles with scalar values: the table has a `prev_evaluation_date` column and the reader
+--    makes one IncrementalCell per ROW, no grouping; the proof is `fromWide_toWide` without the block
+--    step but with a four-column base dict)
 
--- OPEN fromLong_toLong
---   theorem fromLong_toLong {t : List Cell} (h : WFcsv t) :
---     okAnd (longSpec t) ((toLongRows t).bind fun tb => fromLongRows tb []) = true
---   (loss details come back as details: `long_csv_to_triangle` passes no loss_detail_cols)
+-- OPEN fromLong_toLong_incremental
+--   theorem fromLong_toLong_incremental {t : List Cell} {DK LK : List String} (h : WFlongIncr t DK LK) :
+--     okAnd (fun out => longSpec t out && slicesSpec true t out)
+--       ((toLongRows t).bind fun tb => fromLongRows tb []) = true
+--   (incremental triangles with scalar values: one row per cell and field, no grouping, 0-d arrays)
 
 -- OPEN fromArrayFrame_toArrayFrame
 --   theorem fromArrayFrame_toArrayFrame {t : List Cell} {field : String} {res : Int}
